@@ -217,6 +217,24 @@ Theorem C33_randrange_uniform_one_pass :
 Proof. exact randrange_one_pass_unique. Qed.
 Print Assumptions C33_randrange_uniform_one_pass.
 
+(** _randbelow on a secure FIELD type with n = field order takes the direct path runtime._random: the sum of the senders'
+    draws below p, modulo p.  In range, and uniform over the WHOLE field: for any draws of the other senders every field
+    value v comes from exactly one draw r in range(p) of one sender. *)
+Theorem C33_randbelow_order_range :
+  forall (p : Z) (draws : list Z), (0 < p)%Z -> (0 <= randbelow_order p draws < p)%Z.
+Proof. exact randbelow_order_range. Qed.
+Print Assumptions C33_randbelow_order_range.
+
+Theorem C33_randbelow_order_uniform :
+  forall (p : Z) (rest : list Z) (v : Z), (0 < p)%Z -> (0 <= v < p)%Z ->
+    exists! r, (0 <= r < p)%Z /\ randbelow_order p (r :: rest) = v.
+Proof. exact randbelow_order_uniform. Qed.
+Print Assumptions C33_randbelow_order_uniform.
+
+Example C33_randbelow_order_nonvacuous :
+  map (fun r => randbelow_order 11 [r; 7]%Z) (map Z.of_nat (seq 0 11)) = [7; 8; 9; 10; 0; 1; 2; 3; 4; 5; 6]%Z.
+Proof. vm_compute. reflexivity. Qed.
+
 (** Non-vacuity, n = 5 (k = 3, b = 4 = 100b, t = 1): the 8 one-pass tapes by value; 0..4 accepted with that value,
     5, 6, 7 rejected (at bit 1 resp. 0); after the rejection of 7 = [1;1;1] at j = 1 with w = enc 3 = [1;1;0] the
     tape (w[:1] ++ x[1:]) ++ w[1:] = [1;1;1] ++ [1;0] is accepted with 3. *)
